@@ -203,36 +203,47 @@ func (e *Engine) oracle(heavy bool) {
 	mc := e.W.Cfg.Mem
 
 	// demotion under a small future queue may legitimately lose transactions:
-	// what was on offer, is still live, and is not on offer any more
+	// what may sit in the executable list (seen on offer, or accepted while the
+	// offer is cut by MaxReapSize so that the list's tail is invisible), is
+	// still live, is not on offer and is not something the model demands
 	off := map[common.Hash]bool{}
 	for _, tx := range e.offered {
 		off[tx.Hash()] = true
 	}
 	if mc.FutureSize < 1000 {
-		var gone []*MTx
-		for h := range before {
-			if m := e.byHash[h]; m != nil && m.Accepted && !m.Pure && !off[h] {
-				gone = append(gone, m)
-			}
-		}
-		sort.Slice(gone, func(i, j int) bool { return gone[i].Seq < gone[j].Seq })
-		for _, m := range gone {
-			if h := m.Hash; m.Accepted && !off[h] {
-				// keep it only if the model says it must still be on offer
-				must, _ := e.mustOffer(m.From)
-				in := false
-				for _, x := range must {
-					if x == m {
-						in = true
+		truncated := len(e.offered) >= mc.MaxReapSize
+		var cand []*MTx
+		for _, u := range e.W.Users {
+			for _, n := range e.sortedNonces(u.Addr) {
+				for _, m := range e.live[u.Addr][n] {
+					if off[m.Hash] || truncated {
+						m.MaybeGood = true
+					}
+					if m.MaybeGood && !off[m.Hash] {
+						cand = append(cand, m)
 					}
 				}
-				if !in {
-					e.C.Probe("excused-demoted")
-					e.dropLive(m)
+			}
+		}
+		for _, m := range cand {
+			if !m.Accepted {
+				continue
+			}
+			// keep it only if the model says it must still be on offer
+			must, _ := e.mustOffer(m.From)
+			in := false
+			for _, x := range must {
+				if x == m {
+					in = true
 				}
+			}
+			if !in && m.Accepted {
+				e.C.Probe("excused-demoted")
+				e.dropLive(m)
 			}
 		}
 	}
+	_ = before
 
 	goodOffered, utxoTypedGood := 0, 0
 	for _, l := range e.offeredBy {
@@ -388,7 +399,10 @@ func (e *Engine) executeOffer() {
 	b, site, msg, panicked := e.W.Propose(maxTxs, nil, false)
 	e.C.Evals(1)
 	if panicked {
-		e.Violate("offer-not-executable", "offer-not-executable/"+site, "a block built by CreateBlock+PreRunBlock from the mempool's offer did not execute: %s (%s)", msg, e.describe(b))
+		key, detail := e.notExecKey(site, b)
+		if !e.Violate("offer-not-executable", key, "a block built by CreateBlock+PreRunBlock from the mempool's offer did not execute: %s (%s) %s", msg, e.describe(b), detail) {
+			e.flushPool()
+		}
 		return
 	}
 	rb, _, err := e.W.Wire(b)
